@@ -54,7 +54,7 @@ func runDir() string {
 
 // wrRun: one connection through the real thermal-writer handleConn/writer; returns file contents in name order
 func wrRun(in wrInput, extraWrap []string) (files [][]byte, log string, ok bool) {
-	fs, log, ok := wrRunConns([]wrInput{in}, extraWrap)
+	fs, log, ok := wrRunConns([]wrInput{in}, extraWrap, false)
 	if len(fs) > 0 {
 		files = fs[0]
 	}
@@ -64,13 +64,16 @@ func wrRun(in wrInput, extraWrap []string) (files [][]byte, log string, ok bool)
 // wrRunConns: one thermal-writer process serving the given connections one after the other (as the
 // daemon does when the camera reconnects, possibly as a different camera); returns, per connection, the
 // contents of the files that appeared while it was served, in name order
-func wrRunConns(ins []wrInput, extraWrap []string) (files [][][]byte, log string, ok bool) {
+// nowait: the driver accepts the next connection as soon as handleConn returns (as runMain does), while the
+// previous connection's writer goroutine may still be draining; files are then attributed to connections by
+// the length of their frames (the caller gives every connection its own frame size), after all writers ended
+func wrRunConns(ins []wrInput, extraWrap []string, nowait bool) (files [][][]byte, log string, ok bool) {
 	dir, _ := ioutil.TempDir(runDir(), "tw")
 	defer os.RemoveAll(dir)
 	out := filepath.Join(dir, "out")
 	os.Mkdir(out, 0755)
 	sock := filepath.Join(dir, "s")
-	d := startDriverWrapped(extraWrap, buildDir()+"/tw-driver", "serve", fmt.Sprintf("%s %s %d", out, sock, len(ins)), fmt.Sprintf("GOMAXPROCS=%d", ins[0].GoMaxProcs))
+	d := startDriverWrapped(extraWrap, buildDir()+"/tw-driver", "serve", fmt.Sprintf("%s %s %d%s", out, sock, len(ins), map[bool]string{true: " nowait", false: ""}[nowait]), fmt.Sprintf("GOMAXPROCS=%d", ins[0].GoMaxProcs))
 	defer func() { d.in.Close(); d.cmd.Wait() }()
 	seen := map[string]bool{}
 	ok = true
@@ -90,6 +93,9 @@ func wrRunConns(ins []wrInput, extraWrap []string) (files [][][]byte, log string
 			return files, "driver died", false
 		}
 		log = line
+		if nowait {
+			continue
+		}
 		ok = ok && strings.Contains(line, `"writer_done":true`)
 		names, _ := filepath.Glob(filepath.Join(out, "*"))
 		sort.Strings(names)
@@ -103,6 +109,31 @@ func wrRunConns(ins []wrInput, extraWrap []string) (files [][][]byte, log string
 			mine = append(mine, b)
 		}
 		files = append(files, mine)
+	}
+	if nowait {
+		ok = strings.Contains(log, `"writer_done":true`)
+		files = make([][][]byte, len(ins))
+		names, _ := filepath.Glob(filepath.Join(out, "*"))
+		sort.Strings(names)
+		for _, n := range names {
+			b, _ := ioutil.ReadFile(n)
+			k := 0 // a file that cannot be attributed is judged with the first connection (and fails there)
+			if _, fr, err := cptrParse(b); err == nil && len(fr) > 0 {
+				for j, in := range ins {
+					if len(fr[0]) == in.FrameSize {
+						k = j
+					}
+				}
+			} else if err == nil {
+				// header only: belongs to a connection without frames, if any
+				for j, in := range ins {
+					if in.Frames == 0 {
+						k = j
+					}
+				}
+			}
+			files[k] = append(files[k], b)
+		}
 	}
 	return files, log, ok
 }
@@ -272,9 +303,10 @@ func init() {
 		var rmulti struct {
 			Connections []wrInput `json:"connections"`
 			K           int       `json:"this_case_is_connection"`
+			NoWait      bool      `json:"nowait"`
 		}
 		if loadReplay(&rmulti) && len(rmulti.Connections) > 0 {
-			fs, _, _ := wrRunConns(rmulti.Connections, nil)
+			fs, _, _ := wrRunConns(rmulti.Connections, nil, rmulti.NoWait)
 			var files [][]byte
 			if rmulti.K < len(fs) {
 				files = fs[rmulti.K]
@@ -303,15 +335,33 @@ func init() {
 					ins[1].FrameSize = ins[0].FrameSize + 3
 				}
 				ins[2].FrameSize = ins[0].FrameSize
-				fs, line, _ := wrRunConns(ins, nil)
+				nowait := i%6 == 5
+				if nowait {
+					// all three frame sizes distinct, enough frames for the previous writer to be busy still
+					ins[2].FrameSize = ins[0].FrameSize + 7
+					if ins[2].FrameSize == ins[1].FrameSize {
+						ins[2].FrameSize += 2
+					}
+					for k := range ins {
+						if ins[k].Frames < 200 {
+							ins[k].Frames = 200 + 40*k
+						}
+						if ins[k].FrameSize*ins[k].Frames > 9000 {
+							ins[k].Frames = 9000 / ins[k].FrameSize
+						}
+						ins[k].Tail, ins[k].PauseEvery = 0, 0
+						ins[k].Chunks = []int{4096}
+					}
+				}
+				fs, line, _ := wrRunConns(ins, nil, nowait)
 				for k := range ins {
 					var files [][]byte
 					if k < len(fs) {
 						files = fs[k]
 					}
-					emit(Case{Coq: wrCoq(ins[k], files), Input: map[string]interface{}{"connections": ins, "this_case_is_connection": k},
+					emit(Case{Coq: wrCoq(ins[k], files), Input: map[string]interface{}{"connections": ins, "this_case_is_connection": k, "nowait": nowait},
 						Impl: map[string]interface{}{"files": len(files), "driver": strings.TrimSpace(line)},
-						Tags: []string{fmt.Sprintf("connection-%d-of-process", k+1), fmt.Sprintf("framesize=%d", ins[k].FrameSize)}, Nontriv: true, Key: fmt.Sprint("reconn", k, ins[k].FrameSize, ins[k].Frames, ins[k].Seed)})
+						Tags: []string{fmt.Sprintf("connection-%d-of-process", k+1), fmt.Sprintf("framesize=%d", ins[k].FrameSize), fmt.Sprintf("reconnect-without-waiting=%v", nowait)}, Nontriv: true, Key: fmt.Sprint("reconn", k, ins[k].FrameSize, ins[k].Frames, ins[k].Seed)})
 				}
 				continue
 			}
